@@ -691,6 +691,9 @@ namespace sim
     void
     run (void)
     {
+      // a wrong result in a trivially copyable universe is a fast path changing a result (C13);
+      // in a narrow-size_type universe it is size arithmetic gone wrong (C12)
+      G ().universe_props = (U::E::instrumented ? 0u : pbit (P13)) | (U::big ? pbit (P12) : 0u);
       if (jb.mode == "storm")
         storm ();
       else if (jb.mode == "sweep")
